@@ -210,13 +210,38 @@ def check_large_integer_weights(case):
     yt = rs.randint(0, 2, size=n)
     yp = rs.randint(0, 2, size=n)
     g = rs.randint(0, case["groups"], size=n)
-    w = rs.randint(1, 5, size=n) * case["mult"]
-    wc = {"list": [int(x) for x in w], "int64": w.astype(np.int64), "int32": w.astype(np.int32), "float": w.astype(float),
-          "series": pd.Series(w.astype(np.int64), index=np.arange(n)[::-1])}[case["w_kind"]]
+    mult = case["mult"]
+    if case["w_kind"] in ("uint8", "int8", "series_uint8"):
+        mult = 1  # the weights themselves must fit the dtype; their totals need not
+    elif case["w_kind"] in ("int16", "uint16"):
+        mult = min(mult, 1000)
+    w = rs.randint(1, 5, size=n) * mult
+    if case.get("offset") and case["w_kind"] in ("list", "int64", "int32", "float", "series"):
+        # nearly (not exactly) uniform weights, e.g. 100001..100004: still multiplicities, to full double precision
+        w = rs.randint(1, 5, size=n) + case["offset"]
+    if case["w_kind"] in ("list", "int64", "int32", "float", "series"):
+        wc = {"list": [int(x) for x in w], "int64": w.astype(np.int64), "int32": w.astype(np.int32), "float": w.astype(float),
+              "series": pd.Series(w.astype(np.int64), index=np.arange(n)[::-1])}[case["w_kind"]]
+    elif case["w_kind"] == "series_uint8":
+        wc = pd.Series(w.astype(np.uint8))
+    elif case["w_kind"] == "float32":
+        wc = w.astype(np.float32)
+    else:
+        wc = w.astype(case["w_kind"])
+    yp_in = yp.astype(case.get("yp_dtype", "int64"))
     metrics = {"sel": fm.selection_rate, "tpr": fm.true_positive_rate, "mp": fm.mean_prediction}
-    mf = MetricFrame(metrics=metrics, y_true=yt, y_pred=yp, sensitive_features=g,
+    mf = MetricFrame(metrics=metrics, y_true=yt, y_pred=yp_in, sensitive_features=g,
                      sample_params={k: {"sample_weight": wc} for k in metrics})
     wf = w.astype(float)
+    # the functions called directly (no MetricFrame column storage in between)
+    direct = {"sel": fm.selection_rate(yt, yp_in, sample_weight=wc), "mp": fm.mean_prediction(yt, yp_in, sample_weight=wc),
+              "tpr": fm.true_positive_rate(yt, yp_in, sample_weight=wc)}
+    e_sel = wf[yp == 1].sum() / wf.sum()
+    e_tpr = wf[(yt == 1) & (yp == 1)].sum() / wf[yt == 1].sum() if (yt == 1).any() else 0.0
+    tol = 1e-5 if case["w_kind"] == "float32" else 1e-12  # float32 weights carry float32 precision
+    for nm, e in (("sel", e_sel), ("mp", e_sel), ("tpr", e_tpr)):
+        if np.ndim(direct[nm]) != 0 or abs(float(direct[nm]) - e) > tol:
+            raise PropertyViolation(f"{nm} called directly = {direct[nm]!r} with weights of dtype {case['w_kind']} (total {wf.sum():.0f}) and y_pred dtype {case.get('yp_dtype', 'int64')}; weighted fraction from the rows = {e!r}")
     for grp in range(case["groups"]):
         m = g == grp
         if not m.any():
@@ -226,20 +251,26 @@ def check_large_integer_weights(case):
         exp_tpr = wf[pos & (yp == 1)].sum() / wf[pos].sum() if pos.any() else 0.0
         got = mf.by_group.loc[grp]
         for nm, e in (("sel", exp_sel), ("mp", exp_sel), ("tpr", exp_tpr)):
-            if np.ndim(got[nm]) != 0 or abs(float(got[nm]) - e) > 1e-12:
+            if np.ndim(got[nm]) != 0 or abs(float(got[nm]) - e) > tol:
                 raise PropertyViolation(f"by_group[{grp}][{nm}] = {got[nm]!r} with integer weights ({case['w_kind']}, total {wf[m].sum():.0f}); weighted fraction from the rows = {e!r}")
-    d = fm.demographic_parity_difference(yt, yp, sensitive_features=g, sample_weight=wc)
+    d = fm.demographic_parity_difference(yt, yp_in, sensitive_features=g, sample_weight=wc)
     sels = [wf[(g == k) & (yp == 1)].sum() / wf[g == k].sum() for k in range(case["groups"]) if (g == k).any()]
-    if abs(float(d) - (max(sels) - min(sels))) > 1e-12:
+    if abs(float(d) - (max(sels) - min(sels))) > tol:
         raise PropertyViolation(f"demographic_parity_difference = {d!r} with integer weights, expected {max(sels) - min(sels)!r}")
-    return ["nt", "w:" + case["w_kind"]]
+    tags = ["nt", "w:" + case["w_kind"]]
+    if float(w.max()) / float(w.min()) < 1.0001:
+        tags.append("nearly_uniform_weights")
+    return tags
 
 
 @st.composite
 def _large_weight_case(draw):
     return {"n": draw(st.sampled_from([150, 300, 400, 1000])), "seed": draw(st.integers(0, 2**31 - 1)),
             "groups": draw(st.integers(1, 3)), "mult": draw(st.sampled_from([1, 1, 100, 1000])),
-            "w_kind": draw(st.sampled_from(["list", "int64", "int32", "float", "series"]))}
+            "w_kind": draw(st.sampled_from(["list", "int64", "int32", "float", "series", "uint8", "int8", "int16", "uint16",
+                                            "series_uint8", "float32"])),
+            "yp_dtype": draw(st.sampled_from(["int64", "int64", "uint8", "int8", "int32"])),
+            "offset": draw(st.sampled_from([0, 0, 10**5, 10**6]))}
 
 
 @st.composite
@@ -293,6 +324,6 @@ SUBS = [
         floors={"nt": 0.228, "single_weighted_row_group": 0.15}),
     Sub("named_metrics", check_named, strategy=_case, quick=160, thorough=5000, shards=16,
         floors={"nt": 0.25, "single_weighted_row_group": 0.15}),
-    Sub("large_integer_weights", check_large_integer_weights, strategy=_large_weight_case, quick=48, thorough=600, shards=16,
-        shrink_quick=False),
+    Sub("large_integer_weights", check_large_integer_weights, strategy=_large_weight_case, quick=64, thorough=800, shards=16,
+        shrink_quick=False, floors={"nearly_uniform_weights": 0.08}),
 ]
